@@ -297,7 +297,7 @@ func runC08(r *Run, replay *Case) {
 	// isolation when callers pass the SAME map to several templates of the tree: what one template is given afterwards (Assign, Fill) is
 	// seen by no sibling, parent or child, and the caller's map is not written to. For every presence pattern of the other sources.
 	for mask := 0; mask < 8; mask++ {
-		for _, shape := range []string{"siblings-new", "siblings-load", "parent-child", "child-parent"} {
+		for _, shape := range []string{"siblings-new", "siblings-load", "parent-child", "child-parent", "inherit-new", "inherit-load", "inherit-deep", "nested-siblings"} {
 			r.Add(c08Shared(mask&1 != 0, mask&2 != 0, mask&4 != 0, shape))
 		}
 	}
@@ -340,11 +340,29 @@ func c08Shared(theme, dataYml, fm bool, shape string) *Case {
 	case "child-parent":
 		actor = base.New().Fill(shared)
 		witness = actor.New().Fill(shared)
+	// the witness INHERITS its values (New / Load without a Fill of its own): it holds what its parent had when it was made — what the
+	// parent is given afterwards is not a source of the child
+	case "inherit-new":
+		actor = base.New().Fill(shared)
+		witness = actor.New()
+	case "inherit-load":
+		actor = base.New().Fill(shared)
+		witness = actor.Load("page.vuego")
+	case "inherit-deep":
+		actor = base.New().Fill(shared).New().New()
+		witness = actor.New().New()
+	// two children of a parent that is itself a child of a child: what one is given does not reach the other
+	case "nested-siblings":
+		parent := base.New().Fill(shared).New().New()
+		witness = parent.New()
+		witness.Assign("mine", "w")
+		actor = parent.New()
 	}
 	wantK := "fill"
-	if fm && shape == "siblings-load" {
+	if fm && (shape == "siblings-load" || shape == "inherit-load") {
 		wantK = "fm"
 	}
+	mineBefore := witness.Get("mine")
 	before := witness.Get("k")
 	actor.Assign("k", "assigned-elsewhere")
 	actor.Assign("role", "admin")
@@ -355,12 +373,15 @@ func c08Shared(theme, dataYml, fm bool, shape string) *Case {
 	if g := witness.Get("role"); g != "" {
 		fail("child-changes-parent:shared-map", "%s: witness sees role=%q which only another template was given", shape, g)
 	}
+	if g := witness.Get("mine"); g != mineBefore {
+		fail("child-changes-parent:shared-map", "%s: the witness's own value changed from %q to %q after calls on another template", shape, mineBefore, g)
+	}
 	if !reflect.DeepEqual(shared, map[string]any{"k": "fill", "zz": 1}) {
 		fail("caller-map-modified:fill", "%s: the map passed to Fill was changed to %v", shape, shared)
 	}
 	var buf bytes.Buffer
 	w := witness
-	if shape != "siblings-load" {
+	if shape != "siblings-load" && shape != "inherit-load" {
 		w = witness.Load("page.vuego")
 	}
 	if err := w.Render(context.Background(), &buf); err != nil {
